@@ -16,9 +16,13 @@ Definition Q (f t : N) (d : Z) (api : robs) (cli : option robs) : query :=
   {| q_from := f; q_to := t; q_date := d; q_api := api; q_cli := cli |}.
 
 Record case := { c_entries : list entry; c_db : list pline; c_exact : bool; c_loaded : bool;
-                 c_queries : list query }.
+                 c_queries : list query;
+                 (* `okane primitive eval -X T ...` with T unknown to ledger and price DB *)
+                 c_unknown : list uobs }.
 Definition C (es : list entry) (db : list pline) (exact loaded : bool) (qs : list query) : case :=
-  {| c_entries := es; c_db := db; c_exact := exact; c_loaded := loaded; c_queries := qs |}.
+  {| c_entries := es; c_db := db; c_exact := exact; c_loaded := loaded; c_queries := qs; c_unknown := [] |}.
+Definition CU (es : list entry) (db : list pline) (exact loaded : bool) (qs : list query) (us : list uobs) : case :=
+  {| c_entries := es; c_db := db; c_exact := exact; c_loaded := loaded; c_queries := qs; c_unknown := us |}.
 
 (* does the observed answer to "1 from in to" satisfy the property? *)
 Definition spec_ok (exact : bool) (rates : list Qc) (from to : N) (o : robs) : bool :=
@@ -57,7 +61,8 @@ Definition classify (c : case) : N :=
       if negb (c_loaded c) then 1%N else
       let evs := s_events s in
       let recs := repository evs (c_db c) in
-      fold_left (fun acc q => worst acc (classify_query (c_exact c) evs (c_db c) recs q)) (c_queries c) 0%N
+      worst (classify_unknowns (c_unknown c))
+            (fold_left (fun acc q => worst acc (classify_query (c_exact c) evs (c_db c) recs q)) (c_queries c) 0%N)
   | _ => if c_loaded c then 1%N else 0%N
   end.
 
